@@ -108,6 +108,8 @@ class CStr:
             return x
         if type(x) is str:
             return CStr([ord(c) for c in x])
+        if isinstance(x, (bytes, bytearray)):
+            return CStr(list(x))
         raise EngineLimit(f"CStr.of({type(x).__name__})")
 
     def __deepcopy__(self, memo):
@@ -160,6 +162,44 @@ class CStr:
             raise EngineLimit("substring test on a character string")
         return any(bool(SymBool(_t(c) == _t(sub.cs[0]))) for c in self.cs)
 
+    def __int__(self):
+        return int(self.concretize())
+
+    def partition(self, sep):
+        sep = CStr.of(sep)
+        n, k = len(self.cs), len(sep.cs)
+        for i in range(0, n - k + 1):
+            if self[i : i + k] == sep:
+                return (self[:i], self[i : i + k], self[i + k :])
+        return (self, CStr([]), CStr([]))
+
+    def split(self, sep):
+        sep = CStr.of(sep)
+        out, rest = [], self
+        while True:
+            a, s_, b = rest.partition(sep)
+            out.append(a)
+            if not len(s_):
+                return out
+            rest = b
+
+    def decode(self, *a):
+        return self
+
+    def encode(self, *a):
+        return self
+
+    def extend(self, other):
+        self.cs.extend(CStr.of_bytes(other).cs)
+
+    @staticmethod
+    def of_bytes(x):
+        if isinstance(x, CStr):
+            return x
+        if isinstance(x, (bytes, bytearray)):
+            return CStr(list(x))
+        return CStr.of(x)
+
     def lstrip(self, chars):
         k = 0
         while k < len(self.cs) and any(bool(SymBool(_t(self.cs[k]) == ord(ch))) for ch in chars):
@@ -181,7 +221,7 @@ class CStr:
         return bool(self.cs) and all(bool(SymBool(z3.And(_t(c) >= 48, _t(c) <= 57))) for c in self.cs)
 
     def to_int(self, base=10):
-        """int(self): digits only (the patterns guarantee it); ValueError otherwise"""
+        """int(self, base): digits only (the patterns guarantee it); ValueError otherwise"""
         if not self.cs:
             raise ValueError("invalid literal for int()")
         neg = False
@@ -191,9 +231,15 @@ class CStr:
         v = z3.IntVal(0)
         for c in cs:
             d = _t(c)
-            if not bool(SymBool(z3.And(d >= 48, d <= 57))):
+            dec = z3.And(d >= 48, d <= 57)
+            if base == 16:
+                valid = z3.Or(dec, z3.And(d >= 97, d <= 102), z3.And(d >= 65, d <= 70))
+                dv = z3.If(d <= 57, d - 48, z3.If(d <= 70, d - 55, d - 87))
+            else:
+                valid, dv = dec, d - 48
+            if not bool(SymBool(valid)):  # one decision per character (no fork when the character class is known)
                 raise ValueError("invalid literal for int()")
-            v = v * 10 + (d - 48)
+            v = v * base + dv
         v = z3.simplify(-v if neg else v)
         return SymInt(v)
 
@@ -367,6 +413,20 @@ class SxPattern:
         if type(s) is str:
             return self.real.match(s, pos)
         return self._try(CStr.of(s), pos, False)
+
+    def findall(self, s):
+        if type(s) is str:
+            return self.real.findall(s)
+        s = CStr.of(s)
+        out, pos = [], 0
+        while pos <= len(s):
+            m = SxPattern.search(self, s, pos)
+            if m is None:
+                break
+            g = m.groups()
+            out.append(g if self.groups > 1 else (g[0] if self.groups == 1 else m.group()))
+            pos = m.end() if m.end() > m.start() else m.end() + 1
+        return out
 
     def search(self, s, pos=0):
         if type(s) is str:
